@@ -329,8 +329,11 @@ class CF2D(Model):
             lon_attrs['bounds'] = lon_name + '_bounds'
             variables[lat_name + '_bounds'] = xarray.DataArray(self.lat_bounds, dims=[ydim, xdim, 'nv'])
             variables[lon_name + '_bounds'] = xarray.DataArray(self.lon_bounds, dims=[ydim, xdim, 'nv'])
-        lat = xarray.DataArray(self.cy, dims=[ydim, xdim], attrs=lat_attrs)
-        lon = xarray.DataArray(self.cx, dims=[ydim, xdim], attrs=lon_attrs)
+        cy, cx = self.cy, self.cx
+        if e.get('fortran_coords'):
+            cy, cx = numpy.asfortranarray(cy), numpy.asfortranarray(cx)
+        lat = xarray.DataArray(cy, dims=[ydim, xdim], attrs=lat_attrs)
+        lon = xarray.DataArray(cx, dims=[ydim, xdim], attrs=lon_attrs)
         if e.get('transpose_lon'):
             # the longitude variable is stored with its two dimensions the other way round (valid CF: a variable names
             # its own dimensions); the cell (j, i) is the same cell whichever way a variable is stored
@@ -385,6 +388,8 @@ def make_cf2d(rng, *, shoc=False, nj=None, ni=None, bounds=None, holes=None, coo
                       lat_name=lat_name, lon_name=lon_name, ident=ident)
     if bounds != 'none' and not shoc and chance(rng, 0.12):
         m.encoding['transpose_lon'] = True
+    if chance(rng, 0.15):
+        m.encoding['fortran_coords'] = True
     m.kinds = {'face': Kind('face', (ydim, xdim), (nj, ni))}
     m.derived_geometry = bounds == 'none'
     m.skip_cells = set()
@@ -457,6 +462,9 @@ class ShocStandard(Model):
                 coords[xname] = xarray.DataArray(x.T.copy(), dims=dims[::-1], attrs={'units': 'degrees_east', 'long_name': 'lon of ' + kind})
                 coords[yname] = xarray.DataArray(y, dims=dims, attrs={'units': 'degrees_north', 'long_name': 'lat of ' + kind})
                 continue
+            if self.encoding.get('fortran_coords'):
+                # same values, column-major buffers (what .T of a transposed file variable, or asfortranarray, leaves behind)
+                x, y = numpy.asfortranarray(x), numpy.asfortranarray(y)
             coords[xname] = xarray.DataArray(x, dims=dims, attrs={'units': 'degrees_east', 'long_name': 'lon of ' + kind})
             coords[yname] = xarray.DataArray(y, dims=dims, attrs={'units': 'degrees_north', 'long_name': 'lat of ' + kind})
         ds = xarray.Dataset()
@@ -511,6 +519,8 @@ def make_shoc_standard(rng, *, nj=None, ni=None, holes=None, coord_style=None, m
     m.coord_names = dict(SHOC_COORDS)
     m.coord_values = {'face': (cx, cy), 'left': (lx, ly), 'back': (bx, by), 'node': (gx, gy)}
     m.encoding = dict(holes=holes, coord_style=coord_style, map=map_kind, stray_nodes=int(stray.sum()))
+    if chance(rng, 0.15):
+        m.encoding['fortran_coords'] = True
     if transpose_face_lon is None:
         transpose_face_lon = chance(rng, 0.1)
     if transpose_face_lon:
